@@ -423,6 +423,10 @@ class World:
                         tags |= {"C01"}
                     if S in (st.value, w) or (P in (st.value, w) and A in (st.value, w)):
                         tags |= {"C10"}
+                    if {st.value, w} == {S, P}:
+                        # a write-out that does not end when it is due (or ends early): the container has
+                        # not ended in its one way (C09) and its allocation is not returned in that tick (C03)
+                        tags |= {"C09", "C03"}
                     if F in (st.value, w):
                         tags |= {"C09"}
                     self.flag(tags, "operator-state-mismatch", f"tick {self.tick} {self.name(op)}: implementation {st.value}, model {w}")
